@@ -531,7 +531,7 @@ namespace avel {
 
     [[nodiscard]]
     AVEL_FINL vec16x32f negate(mask16x32f m, vec16x32f v) {
-        return vec16x32f{_mm512_mask_sub_ps(decay(v), decay(m), _mm512_setzero_ps(), decay(v))};
+        return vec16x32f{_mm512_castsi512_ps(_mm512_mask_xor_epi32(_mm512_castps_si512(decay(v)), decay(m), _mm512_castps_si512(decay(v)), _mm512_set1_epi32(std::int32_t(0x80000000))))};
     }
 
     [[nodiscard]]
